@@ -2,13 +2,12 @@
    Statements only; the specification is Bundle/ResolverSpec.v (`Eval`), the proofs are in
    Bundle/ResolverRefine.v.
 
-   `Eval … entries args is_open name (text, errors, calls)` is a big-step relation written from the sentences
+   `Eval … entries args name (text, errors, calls)` is a big-step relation written from the sentences
    of the property (one rule per clause), with no scope, no fuel and no placeable counter; `name` is the
-   message value / message attribute / term (attribute) that is formatted.  `is_open` says when a referenced
-   entry counts as "being expanded" (a cycle): open_by_identity = the reference names an entry that is being
-   expanded (the property); open_by_structure = a pattern being expanded is structurally EQUAL to the target
-   (what scope.rs does: travelled.contains(&pattern) compares with ==).  The theorems say
-   that the resolver model (Bundle/ResolverModel.v, validated against the Rust code by the
+   message value / message attribute / term (attribute) that is formatted.  A cycle is a reference to an entry
+   that is being expanded, by NAME; the model detects it by the identity of the pattern object (since the fix
+   of D31; before, it compared patterns structurally and could report a cycle where there was none).
+   The theorems say that the resolver model (Bundle/ResolverModel.v, validated against the Rust code by the
    correspondence run) produces exactly what `Eval` assigns — text, the error list IN ORDER, and the
    list of registered-function invocations with their arguments — for every bundle, argument set,
    pattern, transform, formatter, function table and both isolation settings.
@@ -20,10 +19,6 @@
      * `no_marks_in_values iso p` (only when isolating): no selector / call argument is a message or term
        reference or a nested placeable — otherwise isolation marks become part of a compared / passed value
        (known finding D23, C09);
-     * `no_equal_patterns m` (only for the identity reading, C07_refines_partial): different entries of the bundle
-       have structurally different patterns.  Without it the real code can report a cycle where there is none
-       (NEW FINDING, witness C07_false_cycle_witness below, reproduced on the Rust code); the reading that
-       follows the code (open_by_structure) is proved without this hypothesis: C07_refines_structural_partial;
      * PARTIAL: `TooManyPlaceables` not among the reported errors.  A run that reaches the placeable limit is
        not described by `Eval`; for it C07_limit_reported_once (exactly one TooManyPlaceables, reported
        iff the run was cut short) and C06_budget / C06_limit_error hold.  What is printed after the limit
@@ -49,16 +44,16 @@ Variable args : option fargs.                (* the caller's arguments *)
 
 Hypothesis unescape_forms_agree : forall s, unescape_to_string s = unescape_write s.
 
+(* the entry points, on the pattern object named n (`key_of n` is its identity in the model) *)
 Notation write iso := (write_pattern overflow_checks call_function transform formatter rules custom_as_string
-                         unescape_write unescape_to_string f64_from_str (Bundle m iso) args).
+                           unescape_write unescape_to_string f64_from_str (Bundle m iso) args).
 Notation format iso := (format_pattern overflow_checks call_function transform formatter rules custom_as_string
                           unescape_write unescape_to_string f64_from_str (Bundle m iso) args).
-Notation Spec := (Eval call_function transform formatter rules custom_as_string unescape_write f64_from_str m args open_by_identity).
-Notation SpecS := (Eval call_function transform formatter rules custom_as_string unescape_write f64_from_str m args open_by_structure).
-Notation spec_inline io := (eval_inline call_function transform formatter rules custom_as_string unescape_write f64_from_str m args io).
-Notation spec_value io := (eval_value call_function transform formatter rules custom_as_string unescape_write f64_from_str m args io).
-Notation spec_args io := (eval_args call_function transform formatter rules custom_as_string unescape_write f64_from_str m args io).
-Notation spec_elements io := (eval_elements call_function transform formatter rules custom_as_string unescape_write f64_from_str m args io).
+Notation Spec := (Eval call_function transform formatter rules custom_as_string unescape_write f64_from_str m args).
+Notation spec_inline := (eval_inline call_function transform formatter rules custom_as_string unescape_write f64_from_str m args).
+Notation spec_value := (eval_value call_function transform formatter rules custom_as_string unescape_write f64_from_str m args).
+Notation spec_args := (eval_args call_function transform formatter rules custom_as_string unescape_write f64_from_str m args).
+Notation spec_elements := (eval_elements call_function transform formatter rules custom_as_string unescape_write f64_from_str m args).
 
 Notation iw b := (inline_write overflow_checks call_function transform formatter rules custom_as_string
                     unescape_write unescape_to_string f64_from_str b args).
@@ -70,14 +65,14 @@ Notation ga b := (get_arguments overflow_checks call_function transform formatte
 (* "the formatted text of a message value or attribute equals what the Fluent resolution rules give … and
    nothing else is reported": whenever write_pattern on the pattern named n returns (any fuel; C06_total: it does
    at fuel_of) without having reported TooManyPlaceables, the text written (isolation marks removed), the error
-   list and the function invocations are exactly those of the specification.  PARTIAL only in the limit
-   hypothesis.  First for the reading that follows the code in its cycle test — NO hypothesis on the bundle: *)
-Theorem C07_refines_structural_partial :
+   list and the function invocations are exactly those of the specification — for EVERY bundle (no hypothesis on
+   its entries).  PARTIAL only in the limit hypothesis. *)
+Theorem C07_refines_partial :
   forall iso fuel n p c o sc,
     cache_ok rules c -> no_marks_in_values m iso p -> pattern_named m n = Some p ->
-    write iso fuel p c = Done (o, sc) ->
+    write iso fuel (Some (key_of n)) p c = Done (o, sc) ->
     ~ In TooManyPlaceables (sc_errors sc) ->
-    SpecS n (flatten (strip o), sc_errors sc, sc_calls sc).
+    Spec n (flatten (strip o), sc_errors sc, sc_calls sc).
 Proof.
   intros iso fuel n p c o sc Hc Hok Hn H Hno.
   destruct (write_refines overflow_checks call_function transform formatter rules custom_as_string
@@ -87,38 +82,16 @@ Proof.
   apply J. destruct (sc_dirty sc); [exfalso; apply Hno, Hd; reflexivity | reflexivity].
 Qed.
 
-(* … and for the property's own reading (a cycle = a reference to an entry that is being expanded), on every
-   bundle in which different entries have different patterns *)
-Theorem C07_refines_partial :
-  forall iso fuel n p c o sc,
-    no_equal_patterns m ->
-    cache_ok rules c -> no_marks_in_values m iso p -> pattern_named m n = Some p ->
-    write iso fuel p c = Done (o, sc) ->
-    ~ In TooManyPlaceables (sc_errors sc) ->
-    Spec n (flatten (strip o), sc_errors sc, sc_calls sc).
-Proof.
-  intros iso fuel n p c o sc Hd Hc Hok Hn H Hno.
-  apply Eval_structure_to_identity; [exact Hd|].
-  exact (C07_refines_structural_partial iso fuel n p c o sc Hc Hok Hn H Hno).
-Qed.
-
-(* the two readings of "cycle" coincide when different entries have different patterns *)
-Theorem C07_cycles_by_identity :
-  forall n r, no_equal_patterns m -> SpecS n r -> Spec n r.
-Proof. intros n r Hd. apply Eval_structure_to_identity. exact Hd. Qed.
-
 (* the same for the string API, isolation off: the returned string IS the specified text (every value formatter:
    D22 is fixed) *)
 Theorem C07_refines_format_partial :
   forall fuel n p c text sc,
-    no_equal_patterns m ->
     cache_ok rules c -> pattern_named m n = Some p ->
-    format false (S fuel) p c = Done (text, sc) ->
+    format false (S fuel) (Some (key_of n)) p c = Done (text, sc) ->
     ~ In TooManyPlaceables (sc_errors sc) ->
     Spec n (text, sc_errors sc, sc_calls sc).
 Proof.
-  intros fuel n p c text sc Hd Hc Hn H Hno.
-  apply Eval_structure_to_identity; [exact Hd|].
+  intros fuel n p c text sc Hc Hn H Hno.
   exact (format_refines_off overflow_checks call_function transform formatter rules custom_as_string
            unescape_write unescape_to_string f64_from_str m args unescape_forms_agree fuel n p c text sc Hc Hn H Hno).
 Qed.
@@ -128,8 +101,8 @@ Theorem C07_spec_functional :
   forall n r1 r2, Spec n r1 -> Spec n r2 -> r1 = r2.
 Proof.
   intros n r1 r2 (q1 & N1 & H1) (q2 & N2 & H2). rewrite N1 in N2. injection N2 as <-.
-  exact (proj1 (eval_functional call_function transform formatter rules custom_as_string unescape_write f64_from_str m args
-                  open_by_identity) _ _ _ _ H2 _ H1).
+  exact (proj1 (eval_functional call_function transform formatter rules custom_as_string unescape_write f64_from_str m args)
+           _ _ _ _ H2 _ H1).
 Qed.
 
 (* "an exceeded placeable limit is reported once": TooManyPlaceables occurs at most once in the error
@@ -137,7 +110,7 @@ Qed.
 Theorem C07_limit_reported_once :
   forall iso fuel n p c o sc,
     cache_ok rules c -> no_marks_in_values m iso p -> pattern_named m n = Some p ->
-    write iso fuel p c = Done (o, sc) ->
+    write iso fuel (Some (key_of n)) p c = Done (o, sc) ->
     (tmp_count (sc_errors sc) <= 1)%nat /\ (In TooManyPlaceables (sc_errors sc) <-> sc_dirty sc = true).
 Proof.
   intros. eapply limit_reported_once; eassumption.
@@ -146,54 +119,55 @@ Qed.
 (* "terms see only the arguments passed at their call site (back in force when a nested call returns)".
    Model: every call of Pattern::write / InlineExpression::write / resolve — in particular a term call made
    inside a term — gives the scope back with the local arguments it received (the D12 regression), from
-   every scope reachable in a format call (sound memoizer, non-empty `travelled`), for every fuel.
+   every scope reachable in a format call (sound memoizer, `travelled` = a non-empty stack of bundle pattern
+   objects), for every fuel.
    Specification: the elements after a term call are evaluated in the SAME environment as the call. *)
 Theorem C07_term_args_scoped :
-  (forall f i sc o sc', cache_ok rules (sc_intls sc) -> sc_travelled sc <> [] ->
+  (forall f i sc o sc' T, cache_ok rules (sc_intls sc) -> sc_travelled sc <> [] -> sc_travelled sc = keys T ->
      iw (Bundle m false) f i sc = Done (o, sc') -> sc_local_args sc' = sc_local_args sc) /\
-  (forall f i sc v sc', cache_ok rules (sc_intls sc) -> sc_travelled sc <> [] ->
+  (forall f i sc v sc' T, cache_ok rules (sc_intls sc) -> sc_travelled sc <> [] -> sc_travelled sc = keys T ->
      ir (Bundle m false) f i sc = Done (v, sc') -> sc_local_args sc' = sc_local_args sc) /\
-  (forall io T env id attr cargs rest r,
-     spec_elements io T env (PlaceableElement (Inline (TermReference id attr cargs)) :: rest) r ->
-     exists r1 r2, spec_inline io T env (TermReference id attr cargs) r1 /\ spec_elements io T env rest r2 /\
+  (forall T env id attr cargs rest r,
+     spec_elements T env (PlaceableElement (Inline (TermReference id attr cargs)) :: rest) r ->
+     exists r1 r2, spec_inline T env (TermReference id attr cargs) r1 /\ spec_elements T env rest r2 /\
                    r = r1 +++ r2).
 Proof.
   split; [|split].
-  - intros f. exact (proj1 (proj2 (local_args_restored overflow_checks call_function transform formatter rules custom_as_string
-                              unescape_write unescape_to_string f64_from_str m args unescape_forms_agree f))).
-  - intros f. exact (proj2 (proj2 (local_args_restored overflow_checks call_function transform formatter rules custom_as_string
-                              unescape_write unescape_to_string f64_from_str m args unescape_forms_agree f))).
-  - intros io T env id attr cargs rest r. apply spec_term_then_rest.
+  - intros f. exact (proj1 (local_args_restored overflow_checks call_function transform formatter rules custom_as_string
+                              unescape_write unescape_to_string f64_from_str m args unescape_forms_agree f)).
+  - intros f. exact (proj2 (local_args_restored overflow_checks call_function transform formatter rules custom_as_string
+                              unescape_write unescape_to_string f64_from_str m args unescape_forms_agree f)).
+  - intros T env id attr cargs rest r. apply spec_term_then_rest.
 Qed.
 
 (* "An unresolvable message, term, attribute, function or caller-variable reference renders as its source
    form in braces and is reported exactly once as an error (a parameter that a term was not given renders the
    same way but is not an error)" — in the specification, for each kind: *)
 Theorem C07_unknown_reference_once :
-  (forall io T env id attr r,                                (* message / message attribute *)
-     message_target m id attr = Unknown -> spec_inline io T env (MessageReference id attr) r ->
+  (forall T env id attr r,                                (* message / message attribute *)
+     message_target m id attr = Unknown -> spec_inline T env (MessageReference id attr) r ->
      r = (in_braces (MessageReference id attr), [Reference (RefMessage id attr)], [])) /\
-  (forall io T env id attr cargs r,                          (* term / term attribute: after its arguments *)
-     term_target m id attr = Unknown -> spec_inline io T env (TermReference id attr cargs) r ->
-     exists pos named es cs, spec_args io T env cargs (pos, named, es, cs) /\
+  (forall T env id attr cargs r,                          (* term / term attribute: after its arguments *)
+     term_target m id attr = Unknown -> spec_inline T env (TermReference id attr cargs) r ->
+     exists pos named es cs, spec_args T env cargs (pos, named, es, cs) /\
        r = (in_braces (TermReference id attr cargs), es ++ [Reference (RefTerm id attr)], cs)) /\
-  (forall io T env id cargs r,                               (* function: after its arguments *)
-     function_named m id = None -> spec_inline io T env (FunctionReference id cargs) r ->
-     exists pos named es cs, spec_args io T env (Some cargs) (pos, named, es, cs) /\
+  (forall T env id cargs r,                               (* function: after its arguments *)
+     function_named m id = None -> spec_inline T env (FunctionReference id cargs) r ->
+     exists pos named es cs, spec_args T env (Some cargs) (pos, named, es, cs) /\
        r = (in_braces (FunctionReference id cargs), es ++ [Reference (RefFunction id)], cs)) /\
-  (forall io T id r,                                         (* a variable the caller did not pass *)
-     variable args None id = None -> spec_inline io T None (VariableReference id) r ->
+  (forall T id r,                                         (* a variable the caller did not pass *)
+     variable args None id = None -> spec_inline T None (VariableReference id) r ->
      r = (in_braces (VariableReference id), [Reference (RefVariable id)], [])) /\
-  (forall io T la id r,                                      (* a parameter the term was not given: no error *)
-     variable args (Some la) id = None -> spec_inline io T (Some la) (VariableReference id) r ->
+  (forall T la id r,                                      (* a parameter the term was not given: no error *)
+     variable args (Some la) id = None -> spec_inline T (Some la) (VariableReference id) r ->
      r = (in_braces (VariableReference id), [], [])).
 Proof.
   split; [|split; [|split; [|split]]].
-  - intros io T env id attr r. apply spec_unknown_message.
-  - intros io T env id attr cargs r. apply spec_unknown_term.
-  - intros io T env id cargs r. apply spec_unknown_function.
-  - intros io T id r Hv H. exact (spec_missing_variable _ _ _ _ _ _ _ _ _ _ T None id r Hv H).
-  - intros io T la id r Hv H. exact (spec_missing_variable _ _ _ _ _ _ _ _ _ _ T (Some la) id r Hv H).
+  - intros T env id attr r. apply spec_unknown_message.
+  - intros T env id attr cargs r. apply spec_unknown_term.
+  - intros T env id cargs r. apply spec_unknown_function.
+  - intros T id r Hv H. exact (spec_missing_variable _ _ _ _ _ _ _ _ _ T None id r Hv H).
+  - intros T la id r Hv H. exact (spec_missing_variable _ _ _ _ _ _ _ _ _ T (Some la) id r Hv H).
 Qed.
 
 (* the same on the model, in ANY scope (also after the limit has tripped): one step of InlineExpression::write
@@ -231,16 +205,16 @@ Theorem C07_unknown_function_reported :
      ir b (S f) (FunctionReference id cargs) sc = Done (VError, add_error sc1 (Reference (RefFunction id))) /\
      iw b (S f) (FunctionReference id cargs) sc =
        Done (braced (id ++ [40; 41]), add_error sc1 (Reference (RefFunction id)))) /\
-  (forall io T env id cargs r,
-     function_named m id = None -> spec_value io T env (FunctionReference id cargs) r ->
-     exists pos named es cs, spec_args io T env (Some cargs) (pos, named, es, cs) /\
+  (forall T env id cargs r,
+     function_named m id = None -> spec_value T env (FunctionReference id cargs) r ->
+     exists pos named es cs, spec_args T env (Some cargs) (pos, named, es, cs) /\
        r = (VError, es ++ [Reference (RefFunction id)], cs)).
 Proof.
   split.
   - intros b f id cargs sc pos named sc1 Hg Ha. split.
     + rewrite ir_S_function, Ha. cbn [obind]. rewrite Hg. reflexivity.
     + rewrite iw_S_function, Ha. cbn [obind]. rewrite Hg. reflexivity.
-  - intros io T env id cargs r. apply spec_unknown_function_value.
+  - intros T env id cargs r. apply spec_unknown_function_value.
 Qed.
 
 (* "selects choose the first variant whose key equals the selector (exact string, exact number, or the
@@ -284,8 +258,8 @@ Qed.
 
 End C07.
 
-(* ---------- non-vacuity: the historical witnesses, on the model AND (through C07_refines_structural_partial)
-   on the specification ---------- *)
+(* ---------- non-vacuity: the historical witnesses, on the model AND (through C07_refines_partial) on the
+   specification ---------- *)
 Definition ex_call (name : bytes) (pos : list fvalue) (_ : fargs) : fvalue :=
   match pos with v :: _ => v | [] => VNone end.                                   (* every registered function = identity *)
 Definition ex_rules (_ : ntype) (ops : operands) : pcat :=
@@ -299,21 +273,21 @@ Definition ex_run (m : list (bytes * bentry)) (a : option fargs) (n : pname) : o
   | None => None
   | Some p =>
       match write_pattern true ex_call None None ex_rules ex_id ex_id ex_id f64_from_str_exact (Bundle m false) a
-              (fuel_of (Bundle m false) p) p [] with
+              (fuel_of (Bundle m false) p) (Some (key_of n)) p [] with
       | Done (o, sc) => if existsb is_tmp (sc_errors sc) then None else Some (flatten (strip o), sc_errors sc, sc_calls sc)
       | _ => None
       end
   end.
 
-Notation ExSpec m a := (Eval ex_call None None ex_rules ex_id ex_id f64_from_str_exact m a open_by_structure).
+Notation ExSpec m a := (Eval ex_call None None ex_rules ex_id ex_id f64_from_str_exact m a).
 
 Lemma ex_run_spec m a n r : ex_run m a n = Some r -> ExSpec m a n r.
 Proof.
   unfold ex_run. intros H. destruct (pattern_named m n) as [p|] eqn:En; [|discriminate].
   destruct (write_pattern true ex_call None None ex_rules ex_id ex_id ex_id f64_from_str_exact (Bundle m false) a
-              (fuel_of (Bundle m false) p) p []) as [[o sc]|t|] eqn:E; try discriminate.
+              (fuel_of (Bundle m false) p) (Some (key_of n)) p []) as [[o sc]|t|] eqn:E; try discriminate.
   destruct (existsb is_tmp (sc_errors sc)) eqn:Et; [discriminate|]. injection H as <-.
-  eapply (C07_refines_structural_partial true ex_call None None ex_rules ex_id ex_id ex_id f64_from_str_exact m a
+  eapply (C07_refines_partial true ex_call None None ex_rules ex_id ex_id ex_id f64_from_str_exact m a
             (fun _ => eq_refl) false _ n p [] o sc).
   - intros ty r Hf. discriminate Hf.
   - intros Hx. discriminate Hx.
@@ -393,59 +367,25 @@ Example C07_example_select_and_errors :
     None (the "e") (s "<{b}>{nv}X", [Cyclic; NoValue (s "nv")], []).
 Proof. cbv zeta. split; [|split; [|split]]; apply ex_run_spec; vm_compute; reflexivity. Qed.
 
-(* NEW FINDING (reproduced on the Rust code: corpus/C07/false_cycle.case).  Two DIFFERENT terms with the SAME text:
+(* D31 (fixed by 2e7cfb6): two DIFFERENT terms with the SAME text
        -a = { $k -> [1] { -b(k: 2) } *[other] end }
        -b = { $k -> [1] { -b(k: 2) } *[other] end }
-       e  = { -a(k: 1) }
-   -b(k: 2) is not being expanded when -a refers to it, and it prints "end" without re-entering anything; but
-   Scope::track compares patterns structurally, finds -b's pattern "on the stack" (it equals -a's) and reports
-   a cycle.  The structural reading (= the code) gives {-b} + Cyclic; the property's reading gives "end". *)
+       e  = { -a(k: 1) }        f = { -b(k: 2) }        g = { -b(k: 1) }
+   -b is not being expanded when -a refers to it: no cycle, "end" (the resolver used to compare patterns
+   structurally and answered {-b} + Cyclic).  -b(k: 1) does refer to -b while -b is being expanded: a cycle. *)
 Definition rec_body : list pattern_element :=
   [PlaceableElement (Select (VariableReference (s "k"))
      [Variant (KeyNumber (s "1"))
         (Pattern [pl (TermReference (s "b") None (Some (CallArguments [] [NamedArgument (s "k") (NumberLiteral (s "2"))])))]) false;
       Variant (KeyIdentifier (s "other")) (Pattern [t "end"]) true])].
-Definition false_cycle : list (bytes * bentry) :=
+Definition call_with_k (id k : string) : pattern_element :=
+  pl (TermReference (s id) None (Some (CallArguments [] [NamedArgument (s "k") (NumberLiteral (s k))]))).
+Definition equal_patterns : list (bytes * bentry) :=
   [term "a" rec_body; term "b" rec_body;
-   message "e" [pl (TermReference (s "a") None (Some (CallArguments [] [NamedArgument (s "k") (NumberLiteral (s "1"))])))]].
+   message "e" [call_with_k "a" "1"]; message "f" [call_with_k "b" "2"]; message "g" [call_with_k "b" "1"]].
 
-Ltac side := vm_compute; reflexivity.
-(* syntax-directed construction of a derivation for a concrete bundle (no function calls, variables that exist) *)
-Ltac derive :=
-  lazymatch goal with
-  | |- eval_pattern _ _ _ _ _ _ _ _ _ _ _ _ (Pattern _) _ => eapply P_elements; derive
-  | |- eval_elements _ _ _ _ _ _ _ _ _ _ _ _ [] _ => eapply L_end
-  | |- eval_elements _ _ _ _ _ _ _ _ _ _ _ _ (TextElement _ :: _) _ => eapply L_text; derive
-  | |- eval_elements _ _ _ _ _ _ _ _ _ _ _ _ (PlaceableElement _ :: _) _ => eapply L_placeable; [derive | derive]
-  | |- eval_expr _ _ _ _ _ _ _ _ _ _ _ _ (Inline _) _ => eapply X_inline; derive
-  | |- eval_expr _ _ _ _ _ _ _ _ _ _ _ _ (Select _ _) _ => eapply X_select; [derive | side | derive]
-  | |- eval_inline _ _ _ _ _ _ _ _ _ _ _ _ (TermReference _ _ _) _ => eapply I_term; [derive | derive]
-  | |- eval_inline _ _ _ _ _ _ _ _ _ _ _ _ (VariableReference _) _ => eapply I_variable; side
-  | |- eval_value _ _ _ _ _ _ _ _ _ _ _ _ (VariableReference _) _ => eapply V_variable; side
-  | |- eval_value _ _ _ _ _ _ _ _ _ _ _ _ (NumberLiteral _) _ => eapply V_number
-  | |- eval_value _ _ _ _ _ _ _ _ _ _ _ _ (StringLiteral _) _ => eapply V_string
-  | |- eval_args _ _ _ _ _ _ _ _ _ _ _ _ None _ => eapply A_none
-  | |- eval_args _ _ _ _ _ _ _ _ _ _ _ _ (Some (CallArguments _ _)) _ => eapply A_some; [derive | cbn [map named_value]; derive]
-  | |- eval_values _ _ _ _ _ _ _ _ _ _ _ _ [] _ => eapply S_nil
-  | |- eval_values _ _ _ _ _ _ _ _ _ _ _ _ (_ :: _) _ => eapply S_cons; [derive | derive]
-  | |- expand _ _ _ _ _ _ _ _ _ _ _ _ _ ?tgt _ =>
-      let t' := eval vm_compute in tgt in
-      change tgt with t'; first [ eapply R_found; [side | derive] | eapply R_cyclic; side ]
-  end.
-
-Example C07_false_cycle_witness :
-  ExSpec false_cycle None (the "e") (s "{-b}", [Cyclic], []) /\
-  Eval ex_call None None ex_rules ex_id ex_id f64_from_str_exact false_cycle None open_by_identity (the "e") (s "end", [], []) /\
-  ~ no_equal_patterns false_cycle.
-Proof.
-  split; [apply ex_run_spec; vm_compute; reflexivity|]. split.
-  - eexists. split; [vm_compute; reflexivity|].
-    assert (H : exists r, eval_pattern ex_call None None ex_rules ex_id ex_id f64_from_str_exact false_cycle None open_by_identity
-                            [(the "e", Pattern [pl (TermReference (s "a") None (Some (CallArguments [] [NamedArgument (s "k") (NumberLiteral (s "1"))])))])]
-                            None (Pattern [pl (TermReference (s "a") None (Some (CallArguments [] [NamedArgument (s "k") (NumberLiteral (s "1"))])))]) r /\
-                          r = (s "end", [], [])).
-    { eexists. split; [cbv [pl t the]; derive | vm_compute; reflexivity]. }
-    destruct H as (r & H & ->). exact H.
-  - intros H. specialize (H (NTerm (s "a") None) (NTerm (s "b") None) (Pattern rec_body) (Pattern rec_body) eq_refl eq_refl eq_refl).
-    discriminate H.
-Qed.
+Example C07_example_equal_patterns_no_cycle :
+  ExSpec equal_patterns None (the "e") (s "end", [], []) /\
+  ExSpec equal_patterns None (the "f") (s "end", [], []) /\
+  ExSpec equal_patterns None (the "g") (s "{-b}", [Cyclic], []).
+Proof. split; [|split]; apply ex_run_spec; vm_compute; reflexivity. Qed.
